@@ -8,6 +8,11 @@ from lib import D, rule_text
 from props import common, rulebase
 
 
+# as loaded, and as optimised by default (the optimiser re-batches or-operands per field: its grouping
+# keys must not make the written order matter either)
+SWS = [0, 15]
+
+
 def gen_cond_tree(rng, names, depth):
     if depth == 0 or rng.random() < 0.3:
         r = rng.random()
@@ -108,10 +113,38 @@ def run(ck):
             variants += all_perms_of_first_list(det)[:23]
             ids = []
             for v in variants:
-                c = {"k": "rule", "id": ck.new_id(), "rule": rule_text(v), "docs": docs, "sw": [0]}
+                c = {"k": "rule", "id": ck.new_id(), "rule": rule_text(v), "docs": docs, "sw": SWS}
                 cases.append(c)
                 ids.append(c["id"])
             groups.append(ids)
+        # entries of one sequence that all address the SAME field through different key forms and
+        # pattern kinds (cast / no cast, case sensitive / insensitive, needle / regex / number): the
+        # optimiser regroups them per (field, cast, case) -- every order must give the same verdict
+        pats = ["5*", "*5", "*5*", "5", "i5*", "ix*", "iX5", "x*", "*x", "?^5", "?5$", "i?^X", "true", "t*", "i*RU*", 5, ">4", "<=5", True]
+        vals = [5, "5", 5.0, True, "true", "x5", "X5", "5x", 55, [5, "x"], ["x5", True], None]
+        for _ in range(150 if thorough else 40):
+            k = rng.choice([2, 3, 3, 4])
+            entries = []
+            for _ in range(k):
+                key = rng.choice(["f", "f", "str(f)", "str(f)", "g"])
+                pat = rng.choice(pats)
+                if key == "str(f)" and not isinstance(pat, str):
+                    pat = str(pat).lower()
+                if key == "str(f)" and pat[:1] in "<>":
+                    pat = "5*"
+                entries.append({key: pat if rng.random() < 0.75 else [pat, rng.choice([p for p in pats if isinstance(p, str) and p[:1] not in "<>"])]})
+            cond = rng.choice(["A", "A", "of(A, 1)", "A or B", "B or A or C"])
+            det = {"A": entries, "B": {"h": "q"}, "C": {"h": "r"}, "condition": cond}
+            docs = [D({"f": v, "g": rng.choice(vals)}) for v in rng.sample(vals, 6)] + [D({})]
+            ids = []
+            for perm in itertools.permutations(range(k)):
+                v = dict(det)
+                v["A"] = [entries[i] for i in perm]
+                c = {"k": "rule", "id": ck.new_id(), "rule": rule_text(v), "docs": docs, "sw": SWS}
+                cases.append(c)
+                ids.append(c["id"])
+            groups.append(ids)
+            ck.count("family:same_field_mixed_entries")
     finally:
         gen.NEG = True
     send = rulebase.wire(cases)
@@ -136,26 +169,34 @@ def run(ck):
                 bad = "a permuted rule does not load"
                 r = ""
             else:
-                r = v["res"].get(0, "")
                 bad = None
-                for x, y in zip(b, r):
-                    if (x == "t") != (y == "t"):
-                        bad = "reordering operands / members / entries changed the verdict of a rule without negation or none-of"
-                if len(set(b)) > 1:
+                for sw in SWS:
+                    b = base["res"].get(sw, "")
+                    r = v["res"].get(sw, "")
+                    if len(b) != len(r):
+                        bad = "switch set %d: the permuted rule does not evaluate like the written one (%r / %r)" % (sw, b, r)
+                    for x, y in zip(b, r):
+                        if (x == "t") != (y == "t"):
+                            bad = ("switch set %d: reordering operands / members / entries changed the verdict of a rule "
+                                   "without negation or none-of" % sw)
+                    if bad:
+                        break
+                if len(set(base["res"].get(0, ""))) > 1:
                     nontrivial.add(vid)
             if bad:
                 if len(direct_failed) < 4:
                     ck.violation({"property": "C17", "kind": "direct", "what": bad,
                                   "rule": by_id[ids[0]]["rule"], "permuted": by_id[vid]["rule"], "docs": by_id[vid]["docs"],
                                   "results": [b, r],
-                                  "replay_case": {"k": "rule", "id": 1, "rule": by_id[vid]["rule"], "docs": by_id[vid]["docs"], "sw": [0]}})
+                                  "replay_case": {"k": "rule", "id": 1, "rule": by_id[vid]["rule"], "docs": by_id[vid]["docs"], "sw": SWS}})
                 direct_failed.add(vid)
     ck.coverage["evaluations"] = evals
     ck.coverage["distinct_nontrivial"] = len(nontrivial)
     ck.coverage["rule"] = (
         "random rules without negation and without none-of; each is compared with three variants in which every list, every "
         "mapping, every sequence of mappings and the operands of every and/or of the condition are shuffled, and with all "
-        "permutations (exhaustive up to 4 members) of one member list; 5 documents each; verdicts must be equal. The model is "
+        "permutations (exhaustive up to 4 members) of one member list; 5 documents each; verdicts must be equal, for the rule as "
+        "loaded and as optimised with the default switches. The model is "
         "compared with the crate on every variant. Non-trivial = the verdict of the rule is not constant over its documents.")
     for ids in groups[:3]:
         ck.sample({"rule": by_id[ids[0]]["rule"][:400], "permuted": by_id[ids[1]]["rule"][:400],
